@@ -241,8 +241,10 @@ func init() {
 		return joinOr(out, "/")
 	}
 	// histbtc <n> <ops>   ops '/'-separated: D<nonces>[@faults] deliver (resource = a for even, b for odd nonces),
-	//                     S<nonces> execution of these succeeded, F<nonces> failed (recorded via storeProposalsStatus)
-	//   =>  one `<ret>|<sessions>` per delivery, '/'-separated, then `#<statuses of nonces 0..n-1>`
+	//                     S<nonces> execution of these succeeded, F<nonces> failed (recorded via storeProposalsStatus),
+	//                     T<nonces> a stale session holding these proposals hits its signing time-out (real watchExecution)
+	//   =>  per op `<ret>|<sessions>~<statuses of nonces 0..n-1 afterwards>` (`-~<statuses>` for S/F/T), '/'-separated,
+	//       then `#<final statuses>`
 	ops["C03.histbtc"] = func(a []string) string {
 		n := int(u64(a[0]))
 		b := newC3Btc("-")
@@ -263,7 +265,7 @@ func init() {
 				for i, x := range ns {
 					res[i] = "ab"[x%2]
 				}
-				out = append(out, b.deliver(c3BtcProps(ns, string(res), "m")))
+				out = append(out, b.deliver(c3BtcProps(ns, string(res), "m"))+"~"+b.statuses(n))
 			case 'S', 'F':
 				st := store.ExecutedProp
 				if op[0] == 'F' {
@@ -278,6 +280,18 @@ func init() {
 					return joinOr(out, "/") + "#locked"
 				}
 				b.exe.VerifC17StoreProposalsStatus(ps, st)
+				out = append(out, "-~"+b.statuses(n))
+			case 'T':
+				// a stale watcher for these proposals (its session never signs) runs into the signing time-out
+				ps := []*btcExecutor.BtcTransferProposal{}
+				for _, x := range ns {
+					ps = append(ps, &btcExecutor.BtcTransferProposal{Source: c3Src, Destination: c3Dst,
+						Data: btcExecutor.BtcTransferProposalData{DepositNonce: x}})
+				}
+				if r := c17Timeout(b.exe, ps); r != "t" {
+					return joinOr(out, "/") + "#" + r
+				}
+				out = append(out, "-~"+b.statuses(n))
 			default:
 				panic("bad op")
 			}
@@ -402,16 +416,25 @@ func genC03(g *G) {
 				}
 				f = "@" + fl.String()
 			}
-			switch g.Intn(6) {
+			switch g.Intn(7) {
 			case 0, 1, 2:
 				opsl = append(opsl, "D"+c3RandNonces(g, 5, 5)+f)
 			case 3, 4:
 				opsl = append(opsl, "S"+c3RandNonces(g, 5, 3)+f)
-			default:
+			case 5:
 				opsl = append(opsl, "F"+c3RandNonces(g, 5, 3)+f)
+			default:
+				opsl = append(opsl, "T"+c3RandNonces(g, 5, 3))
 			}
 		}
 		g.Emit("histbtc", "5", joinOr(opsl, "/"))
+	}
+	// a stale session (released, re-delivered, executed by the newer session) runs into its signing time-out; any
+	// later delivery must still skip what is recorded executed
+	for _, ns := range []string{"0", "1,2", "0,1,2", "3,0"} {
+		for _, rel := range []string{"F", "T"} {
+			g.Emit("histbtc", "5", "D"+ns+"/"+rel+ns+"/D"+ns+"/S"+ns+"/T"+ns+"/D"+ns+",4")
+		}
 	}
 }
 
